@@ -7,7 +7,7 @@ import EmmyVerif.Drv.Util
 `lspshape.roundtrip <entries>`  → `ok <decoded entries>` (decode (build es))
 `lspshape.offsets <hex text> <rootEnd> <l:c;…>` → per position `none|guard|<off>`
 `lspshape.ranges <hex text> <sl:sc:el:ec;…>`     → per range `none|s:e`
-`lspshape.chain <ranges>` ranges `sl:sc:el:ec;…` (innermost first) → `ok nested=<b> strict=<b> dedupStrict=<b>`
+`lspshape.chain <ranges>` ranges `sl:sc:el:ec;…` (innermost first) → `ok nested=<b> strict=<b> growStrict=<b>`
 `lspshape.edits <ranges>` → `ok disjoint=<b>` -/
 namespace Drv.LspShape
 open _root_.LspShape
@@ -57,7 +57,7 @@ def handle (op : String) (args : List String) : Option String :=
     pure ("ok " ++ showList out)
   | "chain", [s] => do
     let rs ← (items s).mapM range
-    pure s!"ok nested={chainNested rs} strict={chainStrict rs} dedupStrict={chainStrict (dedupAdj rs)}"
+    pure s!"ok nested={chainNested rs} strict={chainStrict rs} growStrict={chainStrict (grow rs)}"
   | "edits", [s] => do
     let rs ← (items s).mapM range
     pure s!"ok disjoint={editsDisjoint rs}"
